@@ -1,7 +1,7 @@
 (* Properties_C10.v — C10: connections never outlive their peer and ending one never crashes
    (on the lifecycle model of Lifecycle.v; partial: see DESIGN.md for what the model cannot exhibit). *)
 From Coq Require Import String List Ascii ZArith.
-From QH Require Import Bytes Value Lifecycle Spec_C10 LifeProofs.
+From QH Require Import Bytes Value Lifecycle Spec_C10 LifeProofs LifeSpecProofs.
 Import ListNotations.
 
 (* every schedule of feeds, flushes, peer resets, application closes, event-loop turns, new connections and the
@@ -53,6 +53,12 @@ Theorem C10_idle_after_all_closed : forall g, guard g = true -> forall ops1 w,
              (forall j c', nth_error (conns w') j = Some c' -> h c' = false).
 Proof. exact idle_after_all_closed. Qed.
 Print Assumptions C10_idle_after_all_closed.
+
+(* the boolean statement that the check evaluates on the implementation's observations accepts every run of the model:
+   what the checker demands is what the theorems above establish *)
+Theorem C10_model_meets_spec : forall c, run_lifed c <> verr -> chk_C10_lifed c (run_lifed c) = true.
+Proof. exact model_meets_spec_C10. Qed.
+Print Assumptions C10_model_meets_spec.
 
 (* the hypotheses are met by a transfer interrupted by a peer reset *)
 Theorem C10_premises_satisfiable :
